@@ -119,6 +119,7 @@ fn all_opts() -> Opts {
     o.unwrap_pct = 50;
     o.join_pct = 5;
     o.multiline_tag_pct = 10;
+    o.close_attr_pct = 8;
     o
 }
 
